@@ -693,3 +693,162 @@ Section Sat.
         symmetry. unfold elem_type_node. destruct (nk n); assumption.
       + rewrite (keys_of_lit _ _ _ _ Ep), mem_str_one. unfold matches. apply str_eqb_sym.
   Qed.
+
+  (** ** the statements of the extracted shape *)
+  Lemma stmt_base sh s :
+    shex_class fa cfg thr counts ce = inl sh -> In s (sh_stmts sh) ->
+    exists b, In b (class_dir fa cfg thr counts ce (s_inv s)) /\
+              s_prop s = s_prop b /\ s_types s = s_types b /\ s_choice s = false.
+  Proof.
+    intros Hc Hs. rewrite shex_class_eq in Hc.
+    destruct (class_selected fa cfg thr counts ce) as [sel|e] eqn:Esel; [|discriminate].
+    destruct (tune fa cfg (class_cnt counts ce) sel) as [stmts|e] eqn:Et; [|discriminate].
+    inversion Hc; subst sh; cbn in Hs. clear Hc.
+    destruct (tune_spec _ _ _ _ _ Et s Hs) as [v [Hv (T1 & T2 & T3 & T4 & _)]].
+    destruct (class_selected_dir _ _ _ _ _ _ _ Esel Hv) as (inv & out & Hout & Hvo).
+    destruct (selected_like inv out Hout v Hvo) as [b [Hb Hcore]].
+    destruct (base_witness inv b Hb) as (_ & Hbi & Hbc & _).
+    destruct Hcore as (C1 & C2 & C3 & C4 & _).
+    assert (Einv : s_inv s = inv) by congruence. rewrite Einv.
+    exists b. repeat split; congruence.
+  Qed.
+
+  (** (a): every cardinality of the shape holds for every instance *)
+  Lemma class_sat_cards sh s i :
+    shex_class fa cfg thr counts ce = inl sh -> In s (sh_stmts sh) -> In i insts ->
+    card_ok (tc_card (tc_of tau s)) (count_matching (T0 tau sns G) G i (tc_of tau s)) = true.
+  Proof.
+    intros Hc Hs Hi. destruct (stmt_base sh s Hc Hs) as [b [Hb [Ep [Et Hch]]]].
+    assert (Ety : s_type s = s_type b) by (unfold s_type; rewrite Et; reflexivity).
+    assert (Hnl : s_type s <> c_NONLITERAL_ELEM_TYPE) by (rewrite Ety; eapply base_type_not_nl; exact Hb).
+    pose proof (class_cardinalities fa okN okF L cfg node insts (cntk tau sns G) thr counts ce Hthr Hcnt HokN
+                  (Hwf false (fun E => False_ind _ (Bool.diff_false_true E)))
+                  (fun E => Hwf true (fun _ => E))
+                  (fun i0 inv k Hi0 => tau_once tau sns G SD i0 inv k c Hi0)
+                  sh Hkls Hac Hc s Hs Hch Hnl i Hi) as Hcard.
+    unfold tc_of, count_matching. cbn [tc_card tc_inv tc_pred tc_ve].
+    apply card_ok_holds.
+    replace (N.of_nat (List.length (filter (fun x => matches (T0 tau sns G) x (ve_of tau s))
+                                           (nbrs G i (s_inv s) (s_prop s)))))
+      with (cntk tau sns G i (s_inv s) (s_prop s) (s_type s)); [exact Hcard|].
+    unfold cntk. f_equal. f_equal. apply filter_ext_in'. intros x Hx.
+    rewrite (ve_of_ext s b Ep Et), Ety, Ep. symmetry. apply (match_key (s_inv s) b i x Hb Hi).
+    rewrite <- Ep. exact Hx.
+  Qed.
+
+  (** (b): every value of an instance over a path the class has candidates
+      for is matched by some statement of the shape *)
+  Lemma value_matched sh inv i x p :
+    shex_class fa cfg thr counts ce = inl sh -> dir_ok inv -> In i insts -> In x (nbrs G i inv p) ->
+    exists s', In s' (sh_stmts sh) /\ s_inv s' = inv /\ s_prop s' = p /\
+               matches (T0 tau sns G) x (ve_of tau s') = true.
+  Proof.
+    intros Hc Hd Hi Hx. rewrite shex_class_eq in Hc.
+    destruct (class_selected fa cfg thr counts ce) as [sel|e] eqn:Esel; [|discriminate].
+    destruct (tune fa cfg (class_cnt counts ce) sel) as [stmts|e] eqn:Et; [|discriminate].
+    inversion Hc; subst sh; cbn [sh_stmts]. clear Hc.
+    (* the main key of the value *)
+    set (k0 := match x with
+               | OL _ dt => dt
+               | ON n => if str_eqb p tau then nid n else elem_type_node n
+               end).
+    assert (Hk0 : mem_str k0 (keys_of tau sns G inv p x) = true).
+    { unfold k0, keys_of. destruct x as [n|cc dt].
+      - destruct (str_eqb p tau); cbn [mem_str]; rewrite str_eqb_refl; reflexivity.
+      - destruct (str_eqb p tau) eqn:Ep.
+        + exfalso. apply str_eqb_eq in Ep. rewrite Ep in Hx. destruct (tau_value i _ inv Hi Hx) as [_ [cn [E _]]]. discriminate E.
+        + cbn [mem_str]. rewrite str_eqb_refl. reflexivity. }
+    assert (Hpos0 : (0 < cntk tau sns G i inv p k0)%N).
+    { unfold cntk. assert (In x (filter (fun y => mem_str k0 (keys_of tau sns G inv p y)) (nbrs G i inv p)))
+        by (apply filter_In; split; assumption).
+      destruct (filter _ (nbrs G i inv p)); [destruct H | cbn; lia]. }
+    destruct (Hcomp inv Hd i p k0 Hi Hpos0) as (m & cd & n0 & H1 & H2 & H3).
+    set (ck0 := if str_eqb p tau then CKn 1 else CKplus) in *.
+    set (b0 := mk_base inv p k0 ck0 n0).
+    assert (Hb0 : In b0 (class_dir fa cfg thr counts ce inv)).
+    { apply class_dir_In. split; [|reflexivity]. apply class_base_In. cbn [s_inv b0 mk_base]. split; [exact Hd|].
+      apply base_statements_In. exists p, m, k0, cd, ck0, n0. repeat split; try assumption.
+      apply Hthr0. apply (ratio_wf _ _ _ L). exact HokN. }
+    destruct (class_selected_parts sel Esel) as (vd & vi & Hvd & Hvi & Esel').
+    assert (Hout : exists out, select_valid fa cfg cnt (class_dir fa cfg thr counts ce inv) = inl out)
+      by (destruct inv; eauto).
+    destruct Hout as [out Hout].
+    assert (Hsub : forall v, In v out -> In v sel) by (intros v; eapply selected_dir; eassumption).
+    (* through the two merges *)
+    pose proof Hout as Hsel. unfold select_valid in Hsel.
+    destruct (class_dir fa cfg thr counts ce inv) as [|a0 L0] eqn:EL; [destruct Hb0|]. rewrite <- EL in *.
+    destruct (group_same fa cfg _ cnt (class_dir fa cfg thr counts ce inv)) as [l1|e] eqn:E1; [|discriminate].
+    destruct (group_same_complete fa cfg cnt _ _ _ (le_n _) E1 b0 Hb0) as (r1 & d & Hr1 & Hdd & Htok & Hcore).
+    apply same_tokens_eq in Htok. destruct Htok as [K1 K2]. cbn [s_prop b0 mk_base] in K1.
+    assert (K2' : s_type d = k0) by (rewrite <- K2; reflexivity).
+    assert (Hl1 : forall y, In y l1 -> like (class_dir fa cfg thr counts ce inv) y).
+    { pose proof (group_same_like _ _ _ _ _ _ E1) as F. rewrite Forall_forall in F. exact F. }
+    destruct (group_nodes_complete fa cfg cnt _ _ _ (le_n _) Hsel r1 Hr1) as [Hpass Hmerge].
+    assert (Hfin : forall r dd, In r out -> In dd (class_dir fa cfg thr counts ce inv) -> same_core r dd ->
+                   s_prop dd = p -> matches (T0 tau sns G) x (ve_of tau dd) = true ->
+                   exists s', In s' stmts /\ s_inv s' = inv /\ s_prop s' = p /\
+                              matches (T0 tau sns G) x (ve_of tau s') = true).
+    { intros r dd Hr Hddin Hc Hp Hm. destruct (tune_complete _ _ _ _ _ Et r (Hsub r Hr)) as (s' & Hs' & S1 & S2 & S3).
+      destruct Hc as (C1 & C2 & C3 & _). destruct (base_witness inv dd Hddin) as (_ & Hi' & _).
+      exists s'. split; [exact Hs'|]. split; [congruence|]. split; [congruence|].
+      rewrite (ve_of_ext s' dd); [exact Hm | congruence | congruence]. }
+    destruct (passes cfg r1) eqn:Ep1.
+    - (* the statement of (p, k0) passes through *)
+      apply (Hfin r1 d (Hpass eq_refl) Hdd Hcore (eq_sym K1)).
+      rewrite (match_key inv d i x Hdd Hi); [rewrite K2', <- K1; exact Hk0 | rewrite <- K1; exact Hx].
+    - (* merged with the non-literal statements of p *)
+      destruct (Hmerge eq_refl) as (r & g & Hr & Hne & Hg & Hm).
+      assert (Ppr : s_prop r1 = p) by (destruct Hcore as (_ & E & _); congruence).
+      assert (Tyr : s_type r1 = k0) by (rewrite (same_core_type _ _ Hcore); exact K2').
+      unfold passes in Ep1. apply orb_false_iff in Ep1. destruct Ep1 as [Ep1 Enl]. apply negb_false_iff in Enl.
+      fold tau in Ep1. rewrite Ppr in Ep1. rewrite Tyr in Enl.
+      assert (Hpt : p <> tau) by (apply str_eqb_neq; exact Ep1).
+      assert (Hxn : exists n, x = ON n).
+      { destruct x as [n|cc dt]; [eauto|]. exfalso. unfold k0 in Enl.
+        destruct (nbr_literal_datatype tau sns G SD i inv p cc dt Hx) as [Hdt _]. congruence. }
+      destruct Hxn as [n ->].
+      assert (Hg' : forall y, In y g -> like (class_dir fa cfg thr counts ce inv) y /\ s_prop y = p).
+      { intros y Hy. destruct (Hg y Hy) as (G1 & G2 & _). split; [apply Hl1; exact G1 | congruence]. }
+      assert (Hlike : like g r).
+      { destruct Hm as [-> | Hm]; [exists r; split; [left; reflexivity | apply same_core_refl]|].
+        apply (merge_group_homog fa cfg cnt g r Hor); [|exact Hm]. apply (no_both_kinds inv g p Hpt Hg'). }
+      destruct Hlike as [d' [Hd' Hc']]. destruct (Hg' d' Hd') as [[d'' [Hd'' Hc'']] Pd'].
+      destruct (Hg d' Hd') as (_ & _ & Nd').
+      assert (Pd'' : s_prop d'' = p) by (destruct Hc'' as (_ & E & _); congruence).
+      assert (Nd'' : is_nonliteral_type (s_type d'') = true) by (rewrite <- (same_core_type _ _ Hc''); exact Nd').
+      apply (Hfin r d'' Hr Hd'' (same_core_trans _ _ _ Hc' Hc'') Pd'').
+      rewrite (match_key inv d'' i (ON n) Hd'' Hi); [|rewrite Pd''; exact Hx].
+      rewrite Pd'', (keys_of_node _ _ _ Ep1), mem_str_cons.
+      destruct (base_witness inv d'' Hd'') as (_ & _ & _ & _ & i2 & x2 & Hi2 & Hx2 & Hk2). rewrite Pd'' in Hx2, Hk2.
+      assert (Hn1 : In n (nl_nbrs tau G c inv p)) by (apply nl_nbrs_In; exists i; split; assumption).
+      destruct (key_cases inv p i2 x2 _ Hi2 Hx2 Ep1 Hk2)
+        as [(cc & dt & _ & E & Hn & _) | [(n2 & -> & E) | (n2 & -> & Hlab & Hs & Hb2)]].
+      + rewrite E in Nd''. congruence.
+      + assert (Hn2 : In n2 (nl_nbrs tau G c inv p)) by (apply nl_nbrs_In; exists i2; split; assumption).
+        rewrite E. unfold elem_type_node. rewrite (sd_kinds _ _ _ SD c inv p n n2 Hpt Hn1 Hn2).
+        rewrite str_eqb_refl. reflexivity.
+      + assert (Hn2 : In n2 (nl_nbrs tau G c inv p)) by (apply nl_nbrs_In; exists i2; split; assumption).
+        rewrite (sd_kinds _ _ _ SD c inv p n n2 Hpt Hn1 Hn2), Hb2.
+        destruct (sd_typed _ _ _ SD c inv p Hpt) as [Hun | [l Hl]].
+        * rewrite (Hun n2 Hn2) in Hlab. destruct Hlab.
+        * rewrite (Hl n2 Hn2) in Hlab. destruct Hlab as [<-|[]]. rewrite (Hl n Hn1).
+          rewrite mem_str_one, str_eqb_refl. apply orb_true_r.
+  Qed.
+
+  (** T4 for one class: the extracted shape is satisfied by every instance *)
+  Theorem class_sat sh i :
+    shex_class fa cfg thr counts ce = inl sh -> In i insts ->
+    sat (T0 tau sns G) G i (map (tc_of tau) (sh_stmts sh)).
+  Proof.
+    intros Hc Hi. split.
+    - intros tcx Htc. apply in_map_iff in Htc. destruct Htc as [s [<- Hs]].
+      apply (class_sat_cards sh s i Hc Hs Hi).
+    - intros tcx x Htc Hx. apply in_map_iff in Htc. destruct Htc as [s [<- Hs]].
+      cbn [tc_of tc_inv tc_pred] in Hx.
+      destruct (stmt_base sh s Hc Hs) as [b [Hb _]].
+      destruct (base_witness (s_inv s) b Hb) as (Hd & _).
+      destruct (value_matched sh (s_inv s) i x (s_prop s) Hc Hd Hi Hx) as (s' & Hs' & I' & P' & M').
+      exists (tc_of tau s'). split; [apply in_map; exact Hs'|]. cbn [tc_of tc_inv tc_pred tc_ve].
+      repeat split; assumption.
+  Qed.
+End Sat.
